@@ -50,6 +50,12 @@ func NewJobDetail(job Job, jobKey *JobKey) *JobDetail {
 
 // NewJobDetailWithOptions creates and returns a new JobDetail configured as specified.
 func NewJobDetailWithOptions(job Job, jobKey *JobKey, opts *JobDetailOptions) *JobDetail {
+	if opts != nil {
+		// the scheduler keeps the paused state of the job in its options:
+		// do not share them with other jobs built from the same value
+		optsCopy := *opts
+		opts = &optsCopy
+	}
 	return &JobDetail{
 		job:    job,
 		jobKey: jobKey,
